@@ -354,11 +354,20 @@ func ParseSpendPolicy(s string) (SpendPolicy, error) {
 		return
 	}
 	parseUnlockKey := func() (uk UnlockKey) {
+		// a non-alphanumeric algorithm specifier is printed quoted and may
+		// contain the delimiter characters: take the quoted part as a whole
+		var quoted string
+		if s = strings.TrimSpace(s); err == nil && strings.HasPrefix(s, `"`) {
+			if quoted, err = strconv.QuotedPrefix(s); err != nil {
+				return
+			}
+			s = s[len(quoted):]
+		}
 		t := nextToken()
 		if err != nil {
 			return
 		}
-		err = uk.UnmarshalText([]byte(t))
+		err = uk.UnmarshalText([]byte(quoted + t))
 		return
 	}
 	var parseSpendPolicy func() SpendPolicy
